@@ -12,7 +12,7 @@ EXPLANATION = (
     "an element popped from the scored copies of the generator's list; (R3) every apply / toggle_turn on a borrowed "
     "board in the search call graph is undone on all paths (C04.R4 instances); the root tasks work on clones; "
     "(R4) both recursive calls of alpha_beta_minimax pass depth-1 and are guarded by the depth == 0 return. Legality "
-    "beyond 'one of the generator's moves' and panics from lock poisoning are NOT decided.")
+    "beyond 'one of the generator's moves for this position' (R5 imports the cache-key rules of C02/C05) and panics from lock poisoning are NOT decided.")
 ASSUMPTIONS = [
     "rayon's par_iter().map().collect() yields one scored entry per candidate (so a non-empty candidate list gives a non-empty vector)",
     "rustc MIR construction and the chessfacts extractor are faithful",
@@ -225,8 +225,25 @@ def r4_measure(ctx):
     return outs
 
 
+def r5_candidates_are_current(ctx):
+    """R2 makes the answer one of the generator's moves for the root position; that list is served from a cache of the caller's
+    long-lived generator, so it is the list of THIS position only if the cache key separates positions and colours (= C02.R1-R4 incl.
+    the key discipline and key tables of C05)"""
+    from . import c02
+    sub = type(ctx)(ctx.prop, ctx.tier, ctx.facts, ctx.facts_info, ctx.seed)
+    c02.all_rules(sub)
+    n = 0
+    for s in sub.samples:
+        n += 1
+        ctx.ob('C07.R5-candidates-of-this-position', s['function'], s['instance'], s['ok'], found=s['found'], expected=s['expected'],
+               why='a stale move list (e.g. one that still contains a castle whose right is gone) makes the search answer with a move that is not legal here',
+               nontrivial='floor' not in s['instance'])
+    ctx.floor('C07.R5-candidates-of-this-position', 'cache-key obligations imported', n, 20)
+
+
 def run(ctx):
     r1_declared_outcomes(ctx)
     r2_no_fabrication(ctx)
     r3_neutrality(ctx)
     r4_measure(ctx)
+    r5_candidates_are_current(ctx)
